@@ -12,7 +12,7 @@ from . import _text
 ID = 'C13'
 LEVEL = 'exploration'
 RULE = ('cases = hostile mix incl. rule-trigger snippets generated for every registered ErrorFinder rule, whole files, '
-        'test/failing_examples, cycled versions; contract on Grammar.iter_errors: no exception, tree signature unchanged, '
+        'test/failing_examples, (mostly) valid programs from the C10/C12 workload, cycled versions; contract on Grammar.iter_errors: no exception, tree signature unchanged, '
         'codes 901/903 with matching message prefix, range inside the file, <= 1 issue per line, every error leaf (outside '
         'error nodes) and the token after every outermost error node has an issue on its line, strict failure => non-empty '
         'list, second call gives the same list. non-trivial = distinct input with >= 1 issue')
@@ -197,6 +197,24 @@ def run_shard(spec, ctx):
     _install(ctx)
     if spec['kind'] == 'suite':
         return _text.run_repo_suite(ID, ctx)
+    if spec['kind'] == 'valid':
+        # (mostly) valid programs: semantic snippets, mutations, top-level blocks, derivations, lexical literals
+        import random
+        from ..gen import valid
+        from . import c10
+        rng = random.Random(spec['seed'])
+        files = G.corpus_files()
+        gens = {}
+        for i in range(spec['n']):
+            if ctx.out_of_time():
+                break
+            v = harness.VERSIONS[(i + spec['shard']) % 9]
+            if v not in gens:
+                gens[v] = valid.candidates(rng, files, c10._deriver(v))
+            origin, text = next(gens[v])
+            ctx.count('valid_program_candidates')
+            _judge(ctx, v, text)
+        return
     if spec['kind'] == 'files':
         it = _text.whole_files(spec, ctx)
     elif spec['kind'] == 'examples':
@@ -225,6 +243,7 @@ def shards(tier, seed):
     s += [{'kind': 'files', 'shard': i, 'nshards': nf, 'file_stride': 16 if tier == 'quick' else 1,
            'budget_s': 60 if tier == 'quick' else 900} for i in range(nf)]
     s += [{'kind': 'examples'}]
+    s += [{'kind': 'valid', 'n': 4000 if tier == 'quick' else 100000, 'budget_s': 60 if tier == 'quick' else 900} for _ in range(4)]
     if tier == 'thorough':
         s.append({'kind': 'suite'})
     return s
